@@ -75,4 +75,89 @@ def safeFrom : Bool → List (Op R) → Bool
 
 end obj
 
+/-! ## a transposed model KEPT across later operations on its parent
+
+`T = LinearModel(self.adjoint, self.forward, self.domain_geometry, self.range_geometry)`: the callables are the BOUND
+methods of the parent (they follow the parent's current geometries / matrix), the geometry OBJECTS are those the parent had
+when `T` was taken (`T.domain_geometry` = parent's range geometry then, `T.range_geometry` = parent's domain geometry then),
+and `T._matrix` is the parent's matrix transposed if the parent had one then.  Modelled for re-assignments that keep the
+SHAPE of the function values (then a reshaping geometry applied to something that already is a function value / a parameter
+vector is a no-op: `Geom.reE` / `Geom.reF`). -/
+
+structure TObj (R : Type) where
+  /-- `T.domain_geometry`: the parent's range geometry when `T` was taken -/
+  dom : Geom R
+  /-- `T.range_geometry`: the parent's domain geometry when `T` was taken -/
+  rng : Geom R
+  /-- `T._matrix` -/
+  cache : Option (LMat R)
+
+section tobj
+variable {R : Type} [Zero R] [One R] [Add R] [Mul R]
+
+/-- `T = self.T` in state `o` -/
+def Obj.takeT (o : Obj R) : TObj R :=
+  { dom := o.M.rng, rng := o.M.dom,
+    cache := if o.M.matrixBacked then some o.M.A.transpose else o.cache.map LMat.transpose }
+
+/-- `T.forward(y)` with the parent in state `o`: `T.range.fun2par( parent.adjoint( T.domain.par2fun(y) ) )`, where
+    `parent.adjoint(v) = D_now.fun2par( B( R_now.par2fun(v) ) )` -/
+def TObj.fwdPar (t : TObj R) (o : Obj R) (y : Nat → R) : Nat → R :=
+  t.rng.reF (o.M.dom.F.apply (o.M.B.apply (o.M.rng.reE (t.dom.E.apply y))))
+
+/-- `T.adjoint(x)` with the parent in state `o` (through the bound `parent.forward`) -/
+def TObj.adjPar (t : TObj R) (o : Obj R) (x : Nat → R) : Nat → R :=
+  t.dom.reF (o.M.rng.F.apply (o.M.A.apply (o.M.dom.reE (t.rng.E.apply x))))
+
+/-- `T.get_matrix()` with the parent in state `o` -/
+def TObj.getMatrixOut (t : TObj R) (o : Obj R) : LMat R :=
+  match t.cache with
+  | some C => C
+  | none => columnsOf t.rng.parDim t.dom.parDim (t.fwdPar o)
+
+/-- does `T.forward` evaluate?  The parent's current range geometry is applied to a value that has the function size of
+    the kept `T.domain_geometry` (a reshaping geometry passes it on, an expansion demands its parameter size); the kept
+    `T.range_geometry` receives the parent's parameter vector. -/
+def TObj.fwdOk (t : TObj R) (o : Obj R) : Bool :=
+  o.M.shapesOk && t.dom.E.rows == t.dom.funDim && t.dom.E.cols == t.dom.parDim
+    && (if o.M.rng.reshapeLike then t.dom.funDim == o.M.rng.funDim else t.dom.funDim == o.M.rng.parDim)
+    && (t.rng.reshapeLike || t.rng.funDim == o.M.dom.parDim)
+
+/-- does `T.adjoint` evaluate? -/
+def TObj.adjOk (t : TObj R) (o : Obj R) : Bool :=
+  o.M.shapesOk && t.rng.E.rows == t.rng.funDim && t.rng.E.cols == t.rng.parDim
+    && (if o.M.dom.reshapeLike then t.rng.funDim == o.M.dom.funDim else t.rng.funDim == o.M.dom.parDim)
+    && (t.dom.reshapeLike || t.dom.funDim == o.M.rng.parDim)
+
+/-- length of `T.forward(y)`: a reshaping `T.range_geometry` hands the parent's parameter vector through -/
+def TObj.fwdLen (t : TObj R) (o : Obj R) : Nat := if t.rng.reshapeLike then o.M.dom.parDim else t.rng.parDim
+
+/-- length of `T.adjoint(x)` -/
+def TObj.adjLen (t : TObj R) (o : Obj R) : Nat := if t.dom.reshapeLike then o.M.rng.parDim else t.dom.parDim
+
+/-- does `T.get_matrix()` return?  A stored matrix is returned as is; else every column `T.forward(e_i)` must evaluate,
+    have `T.range_dim` entries (`hstack`) and not be 0-d. -/
+def TObj.getMatrixOk (t : TObj R) (o : Obj R) : Bool :=
+  t.cache.isSome || (t.fwdOk o && t.fwdLen o == t.rng.parDim && !(t.rng.squeezes && t.rng.parDim == 1))
+
+/-- object + optionally a kept transposed model -/
+structure HState (R : Type) where
+  o : Obj R
+  t : Option (TObj R)
+
+/-- operations of a history with a kept `T` -/
+inductive HOp (R : Type) where
+  | base : Op R → HOp R
+  | takeT : HOp R
+
+def HState.step (s : HState R) : HOp R → HState R
+  | .base op => { s with o := s.o.step op }
+  | .takeT => { s with t := some s.o.takeT }
+
+def HState.run (s : HState R) : List (HOp R) → HState R
+  | [] => s
+  | op :: l => (s.step op).run l
+
+end tobj
+
 end CuqiVerif.C07
